@@ -46,24 +46,43 @@ let rec string_of_z (x : z) : string =
       string_of_z q ^ string_of_z r
     end
 
+let parse_line (line : string) : z list =
+  let toks = List.filter (fun s -> s <> "") (String.split_on_char ' ' line) in
+  List.map z_of_string toks
+
+let parse_records (line : string) : z list list =
+  List.filter (fun r -> r <> [])
+    (List.map (fun part -> parse_line part) (String.split_on_char '|' line))
+
+let print_records (buf : Buffer.t) (out : z list list) : unit =
+  Buffer.clear buf;
+  List.iteri (fun i rcd ->
+    if i > 0 then Buffer.add_string buf " | ";
+    List.iteri (fun j v ->
+      if j > 0 then Buffer.add_char buf ' ';
+      Buffer.add_string buf (string_of_z v)) rcd) out;
+  print_string (Buffer.contents buf);
+  print_newline ()
+
 let () =
   let which = if Array.length Sys.argv > 1 then Sys.argv.(1) else "model" in
-  let f = if which = "spec" then spec_case else run_case in
   let ic = if Array.length Sys.argv > 2 then open_in Sys.argv.(2) else stdin in
   let buf = Buffer.create 65536 in
-  (try
-    while true do
-      let line = input_line ic in
-      let toks = List.filter (fun s -> s <> "") (String.split_on_char ' ' line) in
-      let case = List.map z_of_string toks in
-      let out = f case in
-      Buffer.clear buf;
-      List.iteri (fun i rcd ->
-        if i > 0 then Buffer.add_string buf " | ";
-        List.iteri (fun j v ->
-          if j > 0 then Buffer.add_char buf ' ';
-          Buffer.add_string buf (string_of_z v)) rcd) out;
-      print_string (Buffer.contents buf);
-      print_newline ()
-    done
-  with End_of_file -> ())
+  if which = "mon" then begin
+    let ic2 = open_in Sys.argv.(3) in
+    (try
+      while true do
+        let line = input_line ic in
+        let impl = input_line ic2 in
+        print_records buf (mon_case_all (parse_line line) (parse_records impl))
+      done
+    with End_of_file -> ())
+  end else begin
+    let f = if which = "spec" then spec_case else run_case3 in
+    (try
+      while true do
+        let line = input_line ic in
+        print_records buf (f (parse_line line))
+      done
+    with End_of_file -> ())
+  end
